@@ -16,6 +16,7 @@ SCAN_CALLS = (
     "flussab_btor2::token::ascii_lowercase", "flussab_btor2::token::hex_string", "flussab_btor2::token::decimal_string", "flussab_btor2::token::binary_string",
     "core::iter::traits::iterator::Iterator::position", "core::iter::traits::iterator::Iterator::count", "core::num::saturating_sub",
     "flussab::deferred_reader::DeferredReader::buf", "flussab::deferred_reader::DeferredReader::advance_with_buf", "flussab::text::LineReader::reader",
+    "core::iter::traits::iterator::Iterator::rposition", "core::iter::traits::iterator::Iterator::enumerate", "core::iter::traits::iterator::Iterator::take_while",
     "core::slice::index::index", "core::slice::iter", "core::iter::traits::iterator::Iterator::rev", "core::iter::traits::iterator::Iterator::filter", "alloc::vec::Vec::len",
 )
 
@@ -75,7 +76,7 @@ def scan_derived(tn, f, e, depth=0):
         return all(scan_derived(tn, f, x, depth + 1) for x in e[3])
     if k == "call":
         n = norm(e[2])
-        if any(n.startswith(p) if p.endswith("::") else n == p for p in SCAN_CALLS) or n.endswith(("Try>::branch", "Option::unwrap")) or ("slice::index" in n and n.endswith("::index")) or n.endswith(("Index<I>>::index", "::deref")):
+        if any(n.startswith(p) if p.endswith("::") else n == p for p in SCAN_CALLS) or n.endswith(("Try>::branch", "Option::unwrap", "Iterator>::position", "Iterator>::rposition", "Iterator>::count")) or ("slice::index" in n and n.endswith("::index")) or n.endswith(("Index<I>>::index", "::deref")):
             return not tn.tainted(f, e) and all(scan_derived(tn, f, a, depth + 1) for a in e[3] if a[0] not in ("f", "l") or True) if False else not tn.tainted(f, e)
         return False
     return False
@@ -124,8 +125,45 @@ def _iv(facts, f, e, at, depth=0):
                 r = (0, 0, 0) if a[2] and a[2] % c0 == 0 else (0, c0 - 1, 1)
         else:
             r = None
+    elif k == "f" and e[2].isdigit() and e[1][0] == "call" and depth < 4:
+        # component of the tuple a workspace function returns: the join over its return sites
+        r = _ret_iv(facts, e[1][2], int(e[2]), depth)
     else:
         r = None
+    # dominating comparisons of the same value with constants (`Some(c @ b'0'..=b'9')`, `if n <= 8`)
+    se = strip_bb(e)
+    if k in ("l", "f", "v", "call"):
+        lo0, hi0 = (r[0], r[1]) if r is not None else (0, None)
+        narrowed = False
+        for _s, fa in guards.facts_at(f, at):
+            if fa[0] == "eq" and strip_bb(fa[1]) == se and isinstance(fa[2], int):
+                lo0, hi0, narrowed = fa[2], fa[2], True
+                continue
+            if fa[0] != "cmp":
+                continue
+            op, a, b = fa[1], strip_bb(fa[2]), strip_bb(fa[3])
+            if a == se and b[0] == "c" and isinstance(b[1], int):
+                c0 = b[1]
+            elif b == se and a[0] == "c" and isinstance(a[1], int):
+                c0 = a[1]
+                op = guards.FLIP[op]
+            else:
+                continue
+            if op == "Le":
+                hi0 = c0 if hi0 is None else min(hi0, c0)
+            elif op == "Lt":
+                hi0 = c0 - 1 if hi0 is None else min(hi0, c0 - 1)
+            elif op == "Ge":
+                lo0 = max(lo0, c0)
+            elif op == "Gt":
+                lo0 = max(lo0, c0 + 1)
+            elif op == "Eq":
+                lo0, hi0 = c0, c0
+            else:
+                continue
+            narrowed = True
+        if narrowed and hi0 is not None:
+            r = (lo0, hi0, r[2] if r is not None else 1)
     if r is None:
         return None
     lo, hi, mod = r
@@ -134,6 +172,35 @@ def _iv(facts, f, e, at, depth=0):
     if g and lo == 0:
         lo = mod if mod > 1 else 1
     return (lo, hi, mod)
+
+
+def _ret_iv(facts, callee, idx, depth):
+    from math import gcd
+    fs = [g for i, g in facts.fns.items() if i == callee or norm(i) == norm(callee)]
+    fs = [g for g in fs if g.crate not in ("ext", "promoted") and g.blocks]
+    if len(fs) != 1:
+        return None
+    g = fs[0]
+    sy = sym(g)
+    out = None
+    n = 0
+    for bi, b in enumerate(g.blocks):
+        for st in b["stmts"]:
+            if st["k"] == "assign" and st["lhs"] == {"l": 0, "p": []}:
+                if not (st["rv"]["k"] == "agg" and st["rv"].get("ak") == "tuple" and idx < len(st["rv"]["ops"])):
+                    return None
+                n += 1
+                v = _iv(facts, g, sy.operand(st["rv"]["ops"][idx]), bi, depth + 4)
+                if v is None:
+                    return None
+                out = v if out is None else (min(out[0], v[0]), max(out[1], v[1]), gcd(out[2], v[2]))
+        t = b["term"]
+        if t["k"] == "call" and t["dest"] == {"l": 0, "p": []}:
+            return None
+    return out if n else None
+
+
+DIGIT_CLASSES = {"is_ascii_digit": (48, 57), "is_ascii_lowercase": (97, 122), "is_ascii_uppercase": (65, 90)}
 
 
 def _truth(facts, f, fact, at):
@@ -165,6 +232,12 @@ def _truth(facts, f, fact, at):
                     return None if val is None else (val == fact[2])
         if e[0] == "c":
             return bool(e[1]) == fact[2]
+        if e[0] == "call" and norm(e[2]).rsplit("::", 1)[-1] in DIGIT_CLASSES and len(e[3]) == 1:
+            lo, hi = DIGIT_CLASSES[norm(e[2]).rsplit("::", 1)[-1]]
+            v = _iv(facts, f, e[3][0], at)
+            if v is not None:
+                val = True if (lo <= v[0] and v[1] <= hi) else (False if (v[1] < lo or v[0] > hi) else None)
+                return None if val is None else (val == fact[2])
     return None
 
 
@@ -196,6 +269,51 @@ def assertion_holds(facts, f, bi):
             return None
         why.append(guards.show_fact(f, fa)[:50])
     return "no way into the failure arm can be taken: each needs " + " / ".join(why) + ", which interval and congruence reasoning refutes"
+
+
+def leading_zero_rejected(facts, fid):
+    """None if, in function fid, the digits parser cannot be reached once the look-ahead primitive answered the byte
+    '0' at the cursor; else the reason"""
+    fs = [g for i, g in facts.fns.items() if norm(i) == fid]
+    if not fs:
+        return "function not found"
+    f = fs[0]
+    c = cfg(f)
+    looks = ("flussab::deferred_reader::DeferredReader::request_byte", "flussab::deferred_reader::DeferredReader::request_byte_at_offset")
+    zero_edges = []
+    for s_bb in sorted(c.reach):
+        if f.term(s_bb)["k"] != "switch":
+            continue
+        for tgt, fa in guards.switch_edges(f, s_bb):
+            if fa[0] == "eq" and fa[2] == 48 and fa[1][0] == "f" and fa[1][1][0] == "v" and fa[1][1][2] == "Some" and fa[1][1][1][0] == "call" and norm(fa[1][1][1][2]) in looks:
+                zero_edges.append(tgt)
+            if fa[0] == "bool" and fa[1][0] == "call" and fa[1][2].endswith(("PartialEq>::eq", "PartialEq::eq")) and fa[2] is True and len(fa[1][3]) == 2:
+                x, y = fa[1][3]
+                for p, q in ((x, y), (y, x)):
+                    if p[0] == "call" and norm(p[2]) in looks and q[0] == "agg" and q[2] == "Some" and q[3] == (("c", 48),):
+                        zero_edges.append(tgt)
+    if not zero_edges:
+        return "no test of the look-ahead primitive's answer against '0' in %s (a leading zero is not rejected on every read schedule)" % short(fid)
+    digits = [bb for bb, t in f.calls() if norm(util.cname(t)).rsplit("::", 1)[-1] in ("uint", "ascii_digits", "ascii_digits_multi")]
+    if not digits:
+        return "no digits parser call in %s" % short(fid)
+    # reachability with the decision carried in a flag (`matches!` stores true / false, the `if` tests it)
+    from .c01 import _KExec, _fz
+    ex = _KExec(f)
+    for z in zero_edges:
+        seen = set()
+        work = [(z, _fz({}))]
+        while work:
+            bb, fe = work.pop()
+            if (bb, fe) in seen or len(seen) > 5000:
+                continue
+            seen.add((bb, fe))
+            if bb in digits:
+                return "the digits parser is reachable after the look-ahead answered '0'"
+            for nb, env in ex.succs(bb, dict(fe), lambda *a: None):
+                if nb is not None:
+                    work.append((nb, _fz(env)))
+    return None
 
 
 def classify(facts, tn, f, bi, kind, t):
@@ -266,7 +384,12 @@ def classify(facts, tn, f, bi, kind, t):
         if (nid, kind) in RESIDUAL:
             return "residual", RESIDUAL[(nid, kind)]
         if (family(nid), kind) in RESIDUAL and a[0] == "call" and "NonZero" in a[2]:
-            return "residual", RESIDUAL[(family(nid), kind)]
+            # the listed reason rests on a structural premise, which is checked: the number parser is not reachable
+            # from the edge on which the look-ahead primitive answered '0'
+            why = leading_zero_rejected(facts, family(nid))
+            if why is None:
+                return "residual", RESIDUAL[(family(nid), kind)]
+            return None, "NonZero::new(..).unwrap(): %s" % why
         return None, "unwrap of %s" % sy.show(a)[:80]
     if kind == "advance":
         n = sy.operand(t["args"][1])
